@@ -5,7 +5,7 @@ from ..astutil import aug_form, dotted, effective, method_call
 from ..cfg import cfg_of, fact_key, norm, walk_own
 from ..consteval import fold_in
 from ..mutate import B, M
-from .c03 import session_object_rules, ext_fetcher_rules, param_metadata_rules, param_type_table_rules, toc_lookup_rules
+from .c03 import generation_switch_rules, session_object_rules, ext_fetcher_rules, param_metadata_rules, param_type_table_rules, toc_lookup_rules
 from ..symexec import paths_of, paths_of_block
 
 PROP = 'C04'
@@ -317,6 +317,7 @@ def check(ctx):
     # ---- R12: the type table that gives every parameter its struct format (shared rule, see C03.R6) -----
     param_type_table_rules(ctx, 'R12')
     param_metadata_rules(ctx, 'R12')
+    generation_switch_rules(ctx, 'R3')      # index width: Param, its updater and the table fetcher switch generation at the same version (shared with C03.R5)
 
     # ---- R13: the extended-type fetcher works on the table of the current connection ----------------------
     session_object_rules(ctx, 'R13')
@@ -343,6 +344,7 @@ def flatten_add(node):
 
 IDC = " and \\\n                    struct.unpack('<H', pk.data[1:3])[0] == element.ident:"
 VARIANTS = [
+    M('R3', PAR, "        self._useV2 = self.cf.platform.get_protocol_version() >= 4\n        toc_fetcher = TocFetcher(self.cf, ParamTocElement,", "        self._useV2 = self.cf.platform.get_protocol_version() > 4\n        toc_fetcher = TocFetcher(self.cf, ParamTocElement,", 'Param switches generation one version late'),
     M('R12', PAR, "            self.ctype = self.types[metadata & 0x0F][0]\n            self.pytype = self.types[metadata & 0x0F][1]", "            self.ctype = self.types[metadata & 0x07][0]\n            self.pytype = self.types[metadata & 0x07][1]", 'type mask loses the unsigned bit'),
     M('R12', PAR, "    RW_ACCESS = 0\n    RO_ACCESS = 1\n", "    RO_ACCESS = 0\n    RW_ACCESS = 1\n", 'access numbers swapped against stored caches'),
     M('R10', PAR, "                self._req_param = -1\n                try:", "                try:", 'fetcher stays tuned to the answered id'),
